@@ -78,6 +78,11 @@ CHECKS['C17'] = dict(engine='CH', category='model_checking', design='4/C17',
    text='For every tree of the family and every dialect name: get_string and get_exec_params with fallback never raise and return a str; with fallback disabled they return or raise only SQLAlchemyError/NotImplementedError; the tree prints and dumps identically before and after. The same contract holds for TypeCast/CREATE TABLE with every type name of the vocabulary (known, unknown, malformed), every binary/unary operator of the vocabulary (known, unknown, with tuple operands), function calls of arity 0..3 with DISTINCT / FROM-argument, and identifiers/aliases with 1..4 parts.',
    note='Trusted: CrossHair path bookkeeping; SQLAlchemy. Finite-domain choices only: symbolic strings through SQLAlchemy were measured to be out of reach for CrossHair (about 3 s solver time per path). Trees outside the family / names outside the vocabularies are outside the claim.')
 
+CHECKS['C20'] = dict(engine='SYMTOK+CH', category='other', design='4/C20',
+   technique='symbolic token streams (SYMTOK, z3-decided) re-explored after predecessor calls of every class through the real get_lexer_parser; structural fingerprint of all library-global state around call batteries; CrossHair path-splitting over pairs of statements planned on shared vs fresh catalog objects',
+   text='NARROWED SCOPE (stated): this technique decides call histories and shared-state mutation, not thread schedules or hash seeds. (a) For every predecessor class (accepting, lexer error, parser error in two dialects, planner error, plan+render) and every token stream of <= K tokens of each dialect, parse_sql gives the same tree / message as without the predecessor. (b) A structural fingerprint of every module-level and class-level object of mindsdb_sql and sly (tables, grammars, lexer classes, reserved words, ...) is unchanged by a battery of parse/plan/render calls including failing ones. (c) For every ordered pair of family statements and catalog form, planning the second on catalog objects already used for the first equals planning it on fresh objects. Under the stated assumption that no call temporarily mutates and restores shared objects, (b) implies concurrent calls do not interfere.',
+   note='NOT claimed: real thread interleavings (neither CrossHair nor our executors model CPython scheduling) and PYTHONHASHSEED independence (a two-seed re-run of the planner family is recorded in the evidence as a sample, not a verdict). K<=2 quick / 3 thorough.')
+
 NA_PENDING = {}
 
 
